@@ -286,3 +286,149 @@ Theorem get_note_length_prefix s ln :
   forallb (fun c => negb (is_len_blank c) && negb (c =? 10)) s = true ->
   s = fst (fst (get_note_length s ln)) ++ snd (fst (get_note_length s ln)).
 Proof. apply get_note_length_f_prefix. lia. Qed.
+
+(* ------------------------------------------------------------------------------------------ *)
+(* 6. the `!L` literal: the tick count of the length L, a quarter note being the default        *)
+(* ------------------------------------------------------------------------------------------ *)
+From Sakura.Model Require Import LexCore.
+From Sakura.Model Require Expr.
+From Sakura.Proofs Require ExprP.
+
+Lemma bang_value e r ln tb : expr_wf e = true -> len_boundary r = true ->
+  (let '(len_str, s2, ln2) := get_note_length (print e ++ r) ln in (calc_length len_str tb tb, s2, ln2))
+  = (denote tb tb e, r, ln).
+Proof. intros W B. rewrite (len_token_boundary e r ln W B), (calc_length_denotes tb tb e W). reflexivity. Qed.
+
+(* lexer.rs read_arg_value (the argument of n o v q t, of loops, of the reservation lists ...) *)
+Theorem read_arg_value_bang f tb e r ln : expr_wf e = true -> len_boundary r = true ->
+  read_arg_value (S f) tb (33 :: print e ++ r) ln = Ok (AInt (denote tb tb e), r, ln).
+Proof.
+  intros W B. cbn [read_arg_value]. rewrite (skip_space_stop (33 :: print e ++ r) ln eq_refl). cbn [peek0 tl].
+  change (is_upper 33 || (33 =? 95)) with false. change (33 =? 33) with true. cbv iota.
+  rewrite (len_token_boundary e r ln W B), (calc_length_denotes tb tb e W). reflexivity.
+Qed.
+(* blanks and TABs (and /* */ comments) before the '!' are skipped: stated for blanks and TABs *)
+Lemma skip_space_f_blanks : forall bl n s ln, forallb (fun c => (c =? 32) || (c =? 9)) bl = true -> (length bl < n)%nat ->
+  skip_space_f n (bl ++ 33 :: s) ln = (33 :: s, ln).
+Proof.
+  induction bl as [|c bl IH]; intros n s ln H F; (destruct n as [|n]; [cbn [length] in F; lia|]); cbn [app skip_space_f].
+  - reflexivity.
+  - cbn [forallb] in H. apply andb_true_iff in H. destruct H as [H1 H2]. unfold c_TAB, c_SP.
+    replace ((c =? 9) || (c =? 32)) with true by lia. apply IH; [exact H2|]. cbn [length] in F. lia.
+Qed.
+Lemma skip_space_blanks bl s ln : forallb (fun c => (c =? 32) || (c =? 9)) bl = true ->
+  skip_space (bl ++ 33 :: s) ln = (33 :: s, ln).
+Proof. intros H. unfold skip_space. apply skip_space_f_blanks; [exact H|]. rewrite app_length. cbn [length]. lia. Qed.
+
+Theorem read_arg_value_bang_blanks f tb bl e r ln :
+  forallb (fun c => (c =? 32) || (c =? 9)) bl = true -> expr_wf e = true -> len_boundary r = true ->
+  read_arg_value (S f) tb (bl ++ 33 :: print e ++ r) ln = Ok (AInt (denote tb tb e), r, ln).
+Proof.
+  intros HB W B. cbn [read_arg_value]. rewrite (skip_space_blanks bl _ ln HB). cbn [peek0 tl].
+  change (is_upper 33 || (33 =? 95)) with false. change (33 =? 33) with true. cbv iota.
+  rewrite (len_token_boundary e r ln W B), (calc_length_denotes tb tb e W). reflexivity.
+Qed.
+
+(* what may follow a `!L` operand of read_value (lexer.rs read_calc with no operator): a boundary of the length that
+   is not an operator character - typically ',' ')' or the end of the text *)
+Definition bang_follow (r : list Z) : bool := len_boundary r && negb (is_operator_char (peek0 r)).
+
+Lemma bang_follow_skip r ln : bang_follow r = true -> skip_space r ln = (r, ln).
+Proof.
+  unfold bang_follow. intros H. apply andb_true_iff in H. destruct H as [B O]. apply negb_true_iff in O.
+  apply skip_space_stop. destruct r as [|c r']; [reflexivity|]. cbn [eq_char peek0] in *.
+  unfold len_boundary in B. cbn [len_stop] in B.
+  apply andb_true_iff in B. destruct B as [B _]. apply andb_true_iff in B. destruct B as [_ B]. apply negb_true_iff in B.
+  unfold is_len_blank, c_SP, c_BAR, c_TAB, c_CR in B.
+  apply orb_false_elim in B. destruct B as [B _]. apply orb_false_elim in B. destruct B as [B T].
+  apply orb_false_elim in B. destruct B as [Sp _]. rewrite T, Sp. cbn [negb andb].
+  unfold is_operator_char in O. cbn [prefixb]. destruct (Z.eqb_spec 47 c) as [E|E]; [|reflexivity].
+  subst c. discriminate O.
+Qed.
+
+(* lexer.rs read_value, as read by read_calc for a literal argument (LexCore.read_calc_literal) *)
+Theorem read_calc_literal_bang tb e r ln : expr_wf e = true -> bang_follow r = true ->
+  read_calc_literal tb (33 :: print e ++ r) ln = Ok (Some (denote tb tb e), r, ln).
+Proof.
+  intros W F. pose proof F as F'. unfold bang_follow in F'. apply andb_true_iff in F'. destruct F' as [B O]. apply negb_true_iff in O.
+  unfold read_calc_literal. rewrite (skip_space_stop (33 :: print e ++ r) ln eq_refl). cbn [peek0 tl].
+  change (is_digit 33 || (33 =? c_DOLLAR)) with false. change (33 =? c_MINUS) with false. change (33 =? 33) with true. cbv iota.
+  rewrite (len_token_boundary e r ln W B), (calc_length_denotes tb tb e W).
+  destruct r as [|c r']; [reflexivity|]. rewrite (bang_follow_skip (c :: r') ln F). rewrite O. reflexivity.
+Qed.
+
+(* the expression reader of the script language (model/Expr.v read_value; the same Rust function) *)
+Theorem expr_read_value_bang tb lexvars f e r : expr_wf e = true -> len_boundary r = true ->
+  Expr.read_value tb lexvars (S f) (33 :: print e ++ r) = Ok (Some (Expr.TConstInt (denote tb tb e)), r).
+Proof.
+  intros W B. rewrite ExprP.read_value_S. unfold Expr.sksp. rewrite (skip_space_stop (33 :: print e ++ r) 0 eq_refl). cbn [fst].
+  change (33 =? 40) with false. change (33 =? 45) with false. change (is_digit 33 || (33 =? 36)) with false.
+  change (33 =? 33) with true. cbv iota.
+  rewrite (len_token_boundary e r 0 W B), (calc_length_denotes tb tb e W). reflexivity.
+Qed.
+
+(* a parenthesised list of `!L` arguments, as the reservation commands read it (lexer.rs read_arg_int_array:
+   v.onTime(!4,!8) ...): every item denotes its tick count *)
+Fixpoint print_bangs (es : list expr) : list Z :=
+  match es with
+  | [] => []
+  | [e] => 33 :: print e
+  | e :: es' => 33 :: print e ++ 44 :: print_bangs es'
+  end.
+
+Lemma boundary_comma x : len_boundary (44 :: x) = true.
+Proof. apply len_boundary_plain; [reflexivity|reflexivity|discriminate]. Qed.
+
+Lemma read_int_array_bangs tb : forall es f r ln, es <> [] -> forallb expr_wf es = true ->
+  len_boundary r = true -> eq_char r 44 = false -> prefixb [47; 42] r = false -> (length es <= f)%nat ->
+  read_int_array_loop f tb (print_bangs es ++ r) ln = Ok (map (denote tb tb) es, r, ln).
+Proof.
+  induction es as [|e es IH]; intros f r ln NE W B C SL F; [contradiction|].
+  destruct f as [|f]; [cbn [length] in F; lia|]. cbn [forallb] in W. apply andb_true_iff in W. destruct W as [W1 W2].
+  assert (SK : skip_space r ln = (r, ln)).
+  { apply skip_space_stop. rewrite SL. destruct r as [|c r']; [reflexivity|]. cbn [eq_char].
+    unfold len_boundary in B. cbn [len_stop] in B.
+    apply andb_true_iff in B. destruct B as [B _]. apply andb_true_iff in B. destruct B as [_ B]. apply negb_true_iff in B.
+    unfold is_len_blank, c_SP, c_BAR, c_TAB, c_CR in B.
+    apply orb_false_elim in B. destruct B as [B _]. apply orb_false_elim in B. destruct B as [B T].
+    apply orb_false_elim in B. destruct B as [Sp _]. rewrite T, Sp. reflexivity. }
+  destruct es as [|e2 es].
+  - cbn [print_bangs app map]. cbn [read_int_array_loop].
+    rewrite (skip_space_stop (33 :: print e ++ r) ln eq_refl). unfold arg_fuel.
+    rewrite (read_arg_value_bang _ tb e r ln W1 B). cbn [bind]. rewrite SK, C. reflexivity.
+  - change (print_bangs (e :: e2 :: es)) with (33 :: print e ++ 44 :: print_bangs (e2 :: es)).
+    cbn [app map]. rewrite <- app_assoc. cbn [app]. cbn [read_int_array_loop].
+    rewrite (skip_space_stop (33 :: print e ++ 44 :: print_bangs (e2 :: es) ++ r) ln eq_refl). unfold arg_fuel.
+    rewrite (read_arg_value_bang _ tb e (44 :: print_bangs (e2 :: es) ++ r) ln W1 (boundary_comma _)). cbn [bind].
+    rewrite (skip_space_stop (44 :: print_bangs (e2 :: es) ++ r) ln eq_refl). cbn [eq_char tl]. change (44 =? 44) with true. cbv iota.
+    rewrite (IH f r ln ltac:(discriminate) W2 B C SL ltac:(cbn [length] in F |- *; lia)). reflexivity.
+Qed.
+
+Lemma print_bangs_length es : (length es <= length (print_bangs es))%nat.
+Proof.
+  induction es as [|e es IH]; [cbn; lia|]. destruct es as [|e2 es]; [cbn [print_bangs length]; lia|].
+  change (print_bangs (e :: e2 :: es)) with (33 :: print e ++ 44 :: print_bangs (e2 :: es)).
+  cbn [length] in *. rewrite app_length. cbn [length]. lia.
+Qed.
+
+Theorem read_arg_int_array_bangs tb es r ln : es <> [] -> forallb expr_wf es = true ->
+  read_arg_int_array tb (40 :: print_bangs es ++ 41 :: r) ln = Ok (map (denote tb tb) es, r, ln).
+Proof.
+  intros NE W. unfold read_arg_int_array. rewrite (skip_space_stop (40 :: print_bangs es ++ 41 :: r) ln eq_refl).
+  cbn [eq_char tl]. change (40 =? 40) with true. cbv iota.
+  rewrite (read_int_array_bangs tb es _ (41 :: r) ln NE W); try reflexivity.
+  cbn [length]. rewrite app_length. pose proof (print_bangs_length es). lia.
+Qed.
+
+(* the statement of props/C04.v: all three model readers of `!L` *)
+Theorem bang_all : forall (tb : Z) (e : expr) (r : list Z) (ln : Z) (f : nat) (lexvars : list (list Z)),
+  expr_wf e = true ->
+  (len_boundary r = true -> read_arg_value (S f) tb (33 :: print e ++ r) ln = Ok (AInt (denote tb tb e), r, ln)) /\
+  (bang_follow r = true -> read_calc_literal tb (33 :: print e ++ r) ln = Ok (Some (denote tb tb e), r, ln)) /\
+  (len_boundary r = true -> Expr.read_value tb lexvars (S f) (33 :: print e ++ r) = Ok (Some (Expr.TConstInt (denote tb tb e)), r)).
+Proof.
+  intros tb e r ln f lexvars W. split; [|split].
+  - apply read_arg_value_bang, W.
+  - apply read_calc_literal_bang, W.
+  - apply expr_read_value_bang, W.
+Qed.
